@@ -28,6 +28,7 @@ func init() {
 }
 
 func runC05(c *core.Ctx) {
+	checkAppendedElementsFresh(c, "C05.elements-fresh", 1, "p2pserver/message/types")
 	c.Floor("zero-copy reads examined for lost end-of-input (p2p messages)", checkEofNotLost(c, "C05.eof-not-lost", funcsOfPkgs(c, "p2pserver/message/types", "p2pserver/common")), 20)
 	checkEncoderCounts(c, "C05.count-matches-elements", func(rel string) bool { return strings.HasPrefix(rel, "p2pserver/message") }, 1, 1)
 	n := checkCodecPairs(c, "C05.schema", func(p codecPair) bool { return strings.HasPrefix(p.Pkg, "p2pserver/") })
@@ -275,13 +276,36 @@ func runC05(c *core.Ctx) {
 		c.Decide(okSum && okLen && okCmd, "C05.write", fn, "header = {CmdType(), measured payload length, Checksum(buf[MSG_HDR_LEN:])}", c.P.Rel(fn.Pos()), sprintf("checksum window %v length %v command %v", okSum, okLen, okCmd))
 	}
 	if fn := c.Fn(pkP2PCommon, "Checksum"); fn != nil {
-		sums := ir.Calls(fn, func(ci ssa.CallInstruction) bool { return ir.IsPkgFunc(ci, "crypto/sha256", "Sum256") })
+		// applications of sha256.Sum256 in Checksum: direct calls, or calls of a module helper whose answer
+		// is Sum256 of the argument it was handed
+		type shaApp struct {
+			call *ssa.Call
+			arg  ssa.Value
+		}
+		var sums []shaApp
+		for _, ci := range ir.Calls(fn, nil) {
+			cl, isCall := ci.(*ssa.Call)
+			if !isCall {
+				continue
+			}
+			if ir.IsPkgFunc(ci, "crypto/sha256", "Sum256") {
+				sums = append(sums, shaApp{cl, cl.Common().Args[0]})
+				continue
+			}
+			via, release := valueVia(cl)
+			if inner, isInner := via.(*ssa.Call); isInner && via != ssa.Value(cl) && ir.IsPkgFunc(inner, "crypto/sha256", "Sum256") {
+				if pp, isP := inner.Common().Args[0].(*ssa.Parameter); isP {
+					sums = append(sums, shaApp{cl, ir.Resolve(pp)})
+				}
+			}
+			release()
+		}
 		okD := false
 		if len(sums) == 2 {
 			first, second := sums[0], sums[1]
-			if ir.Strip(first.Common().Args[0]) == ssa.Value(fn.Params[0]) {
-				if sl, ok := second.Common().Args[0].(*ssa.Slice); ok {
-					if al, isAl := sl.X.(*ssa.Alloc); isAl && ir.SingleStore(al) == ssa.Value(first.(*ssa.Call)) {
+			if ir.Strip(first.arg) == ssa.Value(fn.Params[0]) {
+				if sl, ok := ir.Strip(second.arg).(*ssa.Slice); ok && sl.Low == nil && sl.High == nil {
+					if al, isAl := sl.X.(*ssa.Alloc); isAl && ir.SingleStore(al) == ssa.Value(first.call) {
 						okD = true
 					}
 				}
